@@ -78,3 +78,72 @@ proof fn lemma_min_above(s: Seq<u32>, lb: int) requires all_above(s, lb), s.len(
     }
     assert(seq_min(s) == if (s.last() as int) < seq_min(t) { s.last() as int } else { seq_min(t) });
 }
+
+// ----- which page a zero-page parent receives -----
+/// zero-page parent: no page of its own (object number 0) and at least one child
+/// eff_page(t, id): the page bookmark `id` stands for: its own, or - for a zero-page parent - the first real page among its children
+/// taken in order, each child standing for its own eff_page (so: the first real page in the subtree in depth-first order, where a
+/// real page of a node ends the descent). first_real(t, lb, list, from) is that search over list[from..]; it ends with (0, 0) at an
+/// id the table does not hold. `lb` (the parent's id, -1 for a top-level list) only makes the definition well-founded: under
+/// forest_ordered every member of a child list is greater than lb.
+pub open spec fn zpp(b: Bookmark) -> bool { b.page.0 == 0 && b.children@.len() > 0 }
+pub spec const M: int = 0x1_0000_0000;
+pub open spec fn eff_page(t: Map<u32, Bookmark>, id: u32) -> ObjectId
+    decreases M - id, 0int
+{
+    if t.contains_key(id) && zpp(t[id]) { first_real(t, id as int, t[id].children@, 0) }
+    else if t.contains_key(id) { t[id].page } else { (0u32, 0u16) }
+}
+pub open spec fn first_real(t: Map<u32, Bookmark>, lb: int, list: Seq<u32>, from: int) -> ObjectId
+    decreases M - lb - 1, list.len() - from + 1
+{
+    if from < 0 || from >= list.len() || lb < -1 || lb >= M { (0u32, 0u16) }
+    else {
+        let id = list[from];
+        if !t.contains_key(id) || id <= lb { (0u32, 0u16) }
+        else {
+            let p = eff_page(t, id);
+            if p.0 != 0 { p } else { first_real(t, lb, list, from + 1) }
+        }
+    }
+}
+pub open spec fn rel(a: Map<u32, Bookmark>, b: Map<u32, Bookmark>) -> bool {
+    a.dom() == b.dom() && forall|k: u32| #[trigger] a.contains_key(k) ==>
+        same_but_page(a[k], b[k]) && (b[k].page == a[k].page || (zpp(a[k]) && b[k].page == eff_page(a, k)))
+}
+proof fn lemma_stable_eff(a: Map<u32, Bookmark>, b: Map<u32, Bookmark>, id: u32)
+    requires rel(a, b) ensures eff_page(b, id) == eff_page(a, id) decreases M - id, 0int
+{
+    if a.contains_key(id) {
+        assert(b.contains_key(id));
+        lemma_stable_first(a, b, id as int, a[id].children@, 0);
+    }
+}
+proof fn lemma_stable_first(a: Map<u32, Bookmark>, b: Map<u32, Bookmark>, lb: int, list: Seq<u32>, from: int)
+    requires rel(a, b) ensures first_real(b, lb, list, from) == first_real(a, lb, list, from) decreases M - lb - 1, list.len() - from + 1
+{
+    if from < 0 || from >= list.len() || lb < -1 || lb >= M { }
+    else {
+        let id = list[from];
+        if a.contains_key(id) {
+            assert(b.contains_key(id));
+            if id > lb { lemma_stable_eff(a, b, id); lemma_stable_first(a, b, lb, list, from + 1); }
+            //(a, b, lb, list, from + 1);
+        } else { assert(!b.contains_key(id)); }
+    }
+}
+proof fn lemma_lb(t: Map<u32, Bookmark>, lb1: int, lb2: int, list: Seq<u32>, from: int)
+    requires all_above(list, lb1), all_above(list, lb2), -1 <= lb1 < M, -1 <= lb2 < M
+    ensures first_real(t, lb1, list, from) == first_real(t, lb2, list, from) decreases list.len() - from
+{
+    if 0 <= from < list.len() { lemma_lb(t, lb1, lb2, list, from + 1); }
+}
+proof fn lemma_rel_trans(a: Map<u32, Bookmark>, b: Map<u32, Bookmark>, c: Map<u32, Bookmark>)
+    requires rel(a, b), rel(b, c) ensures rel(a, c)
+{
+    assert forall|k: u32| #[trigger] a.contains_key(k) implies
+        same_but_page(a[k], c[k]) && (c[k].page == a[k].page || (zpp(a[k]) && c[k].page == eff_page(a, k))) by {
+        assert(b.contains_key(k));
+        lemma_stable_eff(a, b, k);
+    }
+}
